@@ -1,9 +1,11 @@
 (* Proofs about Model/Goto.v (goto.rs) for ALL documents, and the formal reading of property C12:
    the syntactic occurrences of a program, the declaration each is bound to under SPL scoping
-   (computed from the tree only, never from the symbol table), the full statement, and its
-   refutation on the model by the witnesses of the two known findings. *)
+   (computed from the tree only, never from the symbol table), the full statement, and executable
+   instances of it: the witnesses of the two findings repaired by /repo b909979 (on which the
+   statement was refuted before and holds now) and two larger samples. *)
 From Coq Require Import Lia Arith PeanoNat Bool List NArith.
 From Spl Require Import Model.Goto Model.Refs.
+From Spl Require Export Spec.Nav.
 Import ListNotations.
 Local Open Scope nat_scope.
 
@@ -103,13 +105,10 @@ Qed.
 (* ------------------------------------------------------------------------------------------------
    the frame *)
 
-Definition resolve (d : doc) (ctx : gentry) (name : text) : option entry :=
-  match ctx with
-  | GTypeE _ => option_map entry_of_g (lookup (d_table d) name)
-  | GProcE p => lt_lookup (Some (pe_local p)) (Some (d_table d)) name
-  end.
+(* `resolve name ctx table gp` is Refs.resolve (references.rs `resolve`); goto.rs inlines the same
+   lookup in each handler *)
 
-Lemma with_cursor_none {A} d l c (k : text -> gentry -> res (option A)) cur :
+Lemma with_cursor_none {A} d l c (k : text -> gentry -> bool -> res (option A)) cur :
   doc_cursor d l c = ROk cur -> cursor_ident cur = None \/ c_ctx cur = None ->
   with_cursor d l c k = ROk None.
 Proof.
@@ -128,10 +127,10 @@ Qed.
 
 (* what a handler returns on a position is what its `_at` function returns on the identifier and
    context found there *)
-Lemma with_cursor_some {A} d l c (k : text -> gentry -> res (option A)) x :
+Lemma with_cursor_some {A} d l c (k : text -> gentry -> bool -> res (option A)) x :
   with_cursor d l c k = ROk (Some x) ->
   exists cur name r ctx, doc_cursor d l c = ROk cur /\ cursor_ident cur = Some (name, r)
-                         /\ c_ctx cur = Some ctx /\ k name ctx = ROk (Some x).
+                         /\ c_ctx cur = Some ctx /\ k name ctx (is_global_position cur) = ROk (Some x).
 Proof.
   unfold with_cursor. destruct (doc_cursor d l c) as [cur|] eqn:E1; simpl; [|discriminate].
   destruct (cursor_ident cur) as [[name r]|] eqn:E2; [|discriminate].
@@ -142,9 +141,9 @@ Qed.
 (* ------------------------------------------------------------------------------------------------
    predefined entities *)
 
-Lemma predefined_no_location d name ctx e :
-  resolve d ctx name = Some e -> is_default e = true ->
-  declaration_at d name ctx = ROk None /\ implementation_at d name ctx = ROk None.
+Lemma predefined_no_location d name ctx gp e :
+  resolve name ctx (d_table d) gp = Some e -> is_default e = true ->
+  declaration_at d name ctx gp = ROk None /\ implementation_at d name ctx gp = ROk None.
 Proof.
   unfold resolve, declaration_at, implementation_at. destruct ctx as [t|p]; intros H D.
   - split; [|reflexivity].
@@ -173,8 +172,8 @@ Definition no_type_target (d : doc) (name : text) (e : entry) : Prop :=
 Lemma text_eqb_refl' a : text_eqb a a = true.
 Proof. induction a; simpl; auto. rewrite N.eqb_refl. auto. Qed.
 
-Lemma type_definition_none d name ctx e :
-  resolve d ctx name = Some e -> no_type_target d name e -> type_definition_at d name ctx = ROk None.
+Lemma type_definition_none d name ctx gp e :
+  resolve name ctx (d_table d) gp = Some e -> no_type_target d name e -> type_definition_at d name ctx gp = ROk None.
 Proof.
   destruct ctx as [t|p]; simpl; intros H N.
   - destruct (text_eqb name s_int) eqn:E; [reflexivity|].
@@ -210,14 +209,14 @@ Ltac slice_case H :=
       let E := fresh "E" in destruct (slice a b) as [?sl|] eqn:E; simpl in H; [|discriminate]
   end.
 
-Lemma declaration_token d name ctx x : declaration_at d name ctx = ROk (Some x) -> loc_of_token d x.
+Lemma declaration_token d name ctx gp x : declaration_at d name ctx gp = ROk (Some x) -> loc_of_token d x.
 Proof.
   destruct ctx as [t|p]; simpl.
   - destruct (text_eqb name s_int); [discriminate|].
     destruct (lookup (d_table d) name) as [ge|]; [|discriminate].
     destruct (is_default (entry_of_g ge)); [discriminate|].
     intros H. slice_case H. eapply answer_token; [|exact H]. eapply slice_in; eauto.
-  - destruct (lt_lookup _ _ name) as [e|]; [|discriminate].
+  - destruct (lookup_for _ _ gp name) as [e|]; [|discriminate].
     destruct (is_default e); [discriminate|].
     intros H. destruct e as [t|q|v|v]; simpl in H.
     + slice_case H. eapply answer_token; [|exact H]. eapply slice_in; eauto.
@@ -228,13 +227,13 @@ Proof.
       intros t Ht. eapply slice_in; [exact E|]. eapply slice_in; eauto.
 Qed.
 
-Lemma type_definition_token d name ctx x : type_definition_at d name ctx = ROk (Some x) -> loc_of_token d x.
+Lemma type_definition_token d name ctx gp x : type_definition_at d name ctx gp = ROk (Some x) -> loc_of_token d x.
 Proof.
   destruct ctx as [t|p]; simpl.
   - destruct (text_eqb name s_int); [discriminate|].
     destruct (lookup (d_table d) name) as [[t'|p']|]; try discriminate.
     intros H. slice_case H. eapply answer_token; [|exact H]. eapply slice_in; eauto.
-  - destruct (lt_lookup _ _ name) as [[t'|p'|v|v]|]; try discriminate.
+  - destruct (lookup_for _ _ gp name) as [[t'|p'|v|v]|]; try discriminate.
     + destruct (text_eqb name s_int); [discriminate|].
       intros H. slice_case H. eapply answer_token; [|exact H]. eapply slice_in; eauto.
     + destruct (ve_ty v) as [[| |s b cr]|]; try discriminate.
@@ -247,11 +246,11 @@ Proof.
       intros H. slice_case H. eapply answer_token; [|exact H]. eapply slice_in; eauto.
 Qed.
 
-Lemma implementation_refines d name ctx x :
-  implementation_at d name ctx = ROk (Some x) -> declaration_at d name ctx = ROk (Some x).
+Lemma implementation_refines d name ctx gp x :
+  implementation_at d name ctx gp = ROk (Some x) -> declaration_at d name ctx gp = ROk (Some x).
 Proof.
   unfold implementation_at, declaration_at. destruct ctx as [t|p]; [discriminate|].
-  destruct (lt_lookup _ _ name) as [[t'|q|v|v]|]; try discriminate.
+  destruct (lookup_for _ _ gp name) as [[t'|q|v|v]|]; try discriminate.
   destruct (is_default (EntProc q)) eqn:D; [discriminate|]. simpl. auto.
 Qed.
 
@@ -277,6 +276,51 @@ Proof.
   destruct (doc_cursor d l c) as [cur|]; simpl; [|discriminate].
   destruct (cursor_ident cur) as [[name r]|]; [|discriminate].
   destruct (c_ctx cur) as [ctx|]; [|discriminate]. apply implementation_refines.
+Qed.
+
+(* ------------------------------------------------------------------------------------------------
+   resolution by syntactic position (/repo b909979) *)
+
+Lemma lookup_for_global g l name :
+  lookup_for g l true name = option_map entry_of_g (lookup g name).
+Proof. unfold lookup_for, lt_lookup. destruct (lookup g name); reflexivity. Qed.
+
+Lemma lookup_for_local g l name le :
+  lookup l name = Some le -> lookup_for g l false name = Some (entry_of_l le).
+Proof. unfold lookup_for, lt_lookup. now intros ->. Qed.
+
+(* in a global position (name of a global declaration, type expression) the locals of the enclosing
+   procedure play no role: the three answers are the same for every procedure context *)
+Lemma global_position_ignores_locals d name p p' :
+  declaration_at d name (GProcE p) true = declaration_at d name (GProcE p') true
+  /\ type_definition_at d name (GProcE p) true = type_definition_at d name (GProcE p') true
+  /\ implementation_at d name (GProcE p) true = implementation_at d name (GProcE p') true.
+Proof.
+  unfold declaration_at, type_definition_at, implementation_at. rewrite !lookup_for_global.
+  destruct (lookup (d_table d) name) as [[t|q]|]; simpl; auto.
+Qed.
+
+(* ... and declaration / typeDefinition answer what they answer inside a type declaration *)
+Lemma global_position_as_type_context d name p t :
+  text_eqb name s_int = false ->
+  declaration_at d name (GProcE p) true = declaration_at d name (GTypeE t) true
+  /\ type_definition_at d name (GProcE p) true = type_definition_at d name (GTypeE t) true.
+Proof.
+  intros E. unfold declaration_at, type_definition_at. rewrite !lookup_for_global, E.
+  destruct (lookup (d_table d) name) as [[t'|q]|]; simpl; auto.
+Qed.
+
+(* outside a global position a parameter or variable of the enclosing procedure wins - also when
+   it has the name of its procedure, of a type or of another procedure: declaration answers with
+   the local's own name, implementation with nothing *)
+Lemma local_wins d name p le :
+  lookup (pe_local p) name = Some le ->
+  declaration_at d name (GProcE p) false
+  = (do toks <- entry_tokens d p (entry_of_l le); answer d toks (entry_of_l le))
+  /\ implementation_at d name (GProcE p) false = ROk None.
+Proof.
+  intros L. unfold declaration_at, implementation_at. rewrite (lookup_for_local _ _ _ _ L).
+  destruct le; simpl; auto.
 Qed.
 
 (* ------------------------------------------------------------------------------------------------
@@ -414,18 +458,22 @@ Proof.
   - apply pentry_answer. eapply proc_entry_ok; eauto.
 Qed.
 
-Lemma lt_lookup_cases p g name e :
-  lt_lookup (Some (pe_local p)) (Some g) name = Some e ->
-  (exists le, lookup (pe_local p) name = Some le /\ e = entry_of_l le)
+(* lookup_table_for(..).lookup: a local entry only outside a global position, else a global one *)
+Lemma lookup_for_cases g l gp name e :
+  lookup_for g l gp name = Some e ->
+  (exists le, gp = false /\ lookup l name = Some le /\ e = entry_of_l le)
   \/ (exists ge, lookup g name = Some ge /\ e = entry_of_g ge).
 Proof.
-  unfold lt_lookup. destruct (lookup (pe_local p) name) as [le|].
-  - intros H; inversion H; left; eauto.
+  unfold lookup_for, lt_lookup. destruct gp.
   - destruct (lookup g name) as [ge|]; [|discriminate]. intros H; inversion H; right; eauto.
+  - destruct (lookup l name) as [le|].
+    + intros H; inversion H; left; eauto.
+    + destruct (lookup g name) as [ge|]; [|discriminate]. intros H; inversion H; right; eauto.
 Qed.
 
-Lemma declaration_at_ok d name ctx k :
-  nav_wf d -> lookup (d_table d) k = Some ctx -> exists o, declaration_at d name ctx = ROk o.
+
+Lemma declaration_at_ok d name ctx gp k :
+  nav_wf d -> lookup (d_table d) k = Some ctx -> exists o, declaration_at d name ctx gp = ROk o.
 Proof.
   intros W C. pose proof (table_entry_ok d k ctx W C) as G.
   destruct ctx as [t|p]; unfold declaration_at.
@@ -436,9 +484,9 @@ Proof.
     destruct ge as [t'|q]; simpl.
     + apply tentry_answer. eapply type_entry_ok; eauto.
     + apply pentry_answer. eapply proc_entry_ok; eauto.
-  - destruct (lt_lookup _ _ name) as [e|] eqn:L; [|eauto].
+  - destruct (lookup_for _ _ gp name) as [e|] eqn:L; [|eauto].
     destruct (is_default e) eqn:D; [eauto|].
-    destruct (lt_lookup_cases _ _ _ _ L) as [[le [L1 ->]]|[ge [L1 ->]]].
+    destruct (lookup_for_cases _ _ _ _ _ L) as [[le [_ [L1 ->]]]|[ge [L1 ->]]].
     + eapply local_answer; eauto. eapply proc_entry_locals; eauto.
     + eapply global_answer; eauto.
 Qed.
@@ -448,8 +496,8 @@ Proof.
   destruct a as [[| |? ? ?]|], b as [[| |? ? ?]|]; simpl; intros; try discriminate; auto.
 Qed.
 
-Lemma type_definition_at_ok d name ctx k :
-  nav_wf d -> lookup (d_table d) k = Some ctx -> exists o, type_definition_at d name ctx = ROk o.
+Lemma type_definition_at_ok d name ctx gp k :
+  nav_wf d -> lookup (d_table d) k = Some ctx -> exists o, type_definition_at d name ctx gp = ROk o.
 Proof.
   intros W C. unfold type_definition_at.
   assert (V : forall v, exists o,
@@ -473,21 +521,21 @@ Proof.
   - destruct (text_eqb name s_int) eqn:E; [eauto|].
     destruct (lookup (d_table d) name) as [[t'|q]|] eqn:L; eauto.
     apply tentry_answer. eapply type_entry_ok; eauto. eapply table_entry_ok; eauto.
-  - destruct (lt_lookup _ _ name) as [[t'|q|v|v]|] eqn:L; eauto.
+  - destruct (lookup_for _ _ gp name) as [[t'|q|v|v]|] eqn:L; eauto.
     destruct (text_eqb name s_int) eqn:E; [eauto|].
-    destruct (lt_lookup_cases _ _ _ _ L) as [[le [L1 Q]]|[ge [L1 Q]]].
+    destruct (lookup_for_cases _ _ _ _ _ L) as [[le [_ [L1 Q]]]|[ge [L1 Q]]].
     + destruct le; discriminate Q.
     + destruct ge as [t2|?]; [|discriminate Q]. inversion Q; subst t2.
       apply tentry_answer. eapply type_entry_ok; eauto. eapply table_entry_ok; eauto.
 Qed.
 
-Lemma implementation_at_ok d name ctx k :
-  nav_wf d -> lookup (d_table d) k = Some ctx -> exists o, implementation_at d name ctx = ROk o.
+Lemma implementation_at_ok d name ctx gp k :
+  nav_wf d -> lookup (d_table d) k = Some ctx -> exists o, implementation_at d name ctx gp = ROk o.
 Proof.
   intros W C. unfold implementation_at. destruct ctx as [t|p]; [eauto|].
-  destruct (lt_lookup _ _ name) as [[t'|q|v|v]|] eqn:L; eauto.
+  destruct (lookup_for _ _ gp name) as [[t'|q|v|v]|] eqn:L; eauto.
   destruct (is_default (EntProc q)) eqn:D; [eauto|].
-  destruct (lt_lookup_cases _ _ _ _ L) as [[le [L1 Q]]|[ge [L1 Q]]].
+  destruct (lookup_for_cases _ _ _ _ _ L) as [[le [_ [L1 Q]]]|[ge [L1 Q]]].
   - destruct le; discriminate Q.
   - destruct ge as [?|q2]; [discriminate Q|]. inversion Q; subst q2.
     apply pentry_answer. eapply proc_entry_ok; eauto. eapply table_entry_ok; eauto.
@@ -505,9 +553,9 @@ Proof.
   destruct g as [[gd off]|]; [|discriminate]. destruct (gdecl_name gd) as [n|]; [|discriminate]. eauto.
 Qed.
 
-Lemma with_cursor_ok {A} d l c (k : text -> gentry -> res (option A)) :
+Lemma with_cursor_ok {A} d l c (k : text -> gentry -> bool -> res (option A)) :
   nav_wf d ->
-  (forall name ctx key, lookup (d_table d) key = Some ctx -> exists o, k name ctx = ROk o) ->
+  (forall name ctx gp key, lookup (d_table d) key = Some ctx -> exists o, k name ctx gp = ROk o) ->
   exists o, with_cursor d l c k = ROk o.
 Proof.
   intros W K. destruct (doc_cursor_ok d l c W) as [cur [E C]]. unfold with_cursor. rewrite E. simpl.
@@ -522,7 +570,7 @@ Lemma goto_robust d l c :
   /\ (exists o, goto_type_definition d l c = ROk o) /\ (exists o, goto_implementation d l c = ROk o).
 Proof.
   intros W. unfold goto_definition, goto_declaration, goto_type_definition, goto_implementation.
-  repeat split; apply with_cursor_ok; auto; intros name ctx key L.
+  repeat split; apply with_cursor_ok; auto; intros name ctx gp key L.
   - eapply declaration_at_ok; eauto.
   - eapply declaration_at_ok; eauto.
   - eapply type_definition_at_ok; eauto.
@@ -530,220 +578,14 @@ Proof.
 Qed.
 
 (* ------------------------------------------------------------------------------------------------
-   The formal reading of C12.
-
-   Occurrences: every identifier node of the tree with its syntactic role, the name of the
-   procedure around it and its absolute token range (the identifier is the LAST token of the range).
-   Binding under SPL scoping, from the tree alone: a declaring occurrence is bound to itself; a
-   type identifier to the type declaration of that name; a variable use or a called name to the
-   parameter / variable of that name of the enclosing procedure, else to the procedure declaration
-   of that name; nothing else (predefined entities have no declaration). *)
-
-Inductive role := RTypeDecl | RProcDecl | RParamDecl | RVarDecl | RTypeUse | RVarUse | RCall.
-
-Definition role_eqb (a b : role) : bool :=
-  match a, b with
-  | RTypeDecl, RTypeDecl | RProcDecl, RProcDecl | RParamDecl, RParamDecl | RVarDecl, RVarDecl
-  | RTypeUse, RTypeUse | RVarUse, RVarUse | RCall, RCall => true
-  | _, _ => false
-  end.
-
-(* o_ty: for a declaration of a type / parameter / variable, the shape of its type expression:
-   Some (Some T) = the named type T, Some None = an array type written in place *)
-Record occ := { o_id : ident; o_role : role; o_proc : option text; o_ty : option (option text) }.
-
-Definition all (i : ident) : bool := true.
-
-Definition ty_shape (t : option (typeexpr * nat)) : option (option text) :=
-  match t with
-  | Some (TNamed i, _) => Some (Some (id_val i))
-  | Some (TArray _ _ _, _) => Some None
-  | None => None
-  end.
-
-Definition mk_occs (off : nat) (r : role) (p : option text) (l : list ident) : list occ :=
-  map (fun i => {| o_id := shift_ident i off; o_role := r; o_proc := p; o_ty := None |}) l.
-
-Definition param_occs (off : nat) (p : option text) (ps : list (paramdecl * nat)) : list occ :=
-  flat_map (fun x =>
-    match fst x with
-    | PValid _ _ (Some i) ty _ =>
-        [{| o_id := shift_ident (shift_ident i (snd x)) off; o_role := RParamDecl; o_proc := p; o_ty := ty_shape ty |}]
-    | _ => []
-    end) ps.
-
-Definition var_occs (off : nat) (p : option text) (vs : list (vardecl * nat)) : list occ :=
-  flat_map (fun x =>
-    match fst x with
-    | VValid _ (Some i) ty _ =>
-        [{| o_id := shift_ident (shift_ident i (snd x)) off; o_role := RVarDecl; o_proc := p; o_ty := ty_shape ty |}]
-    | _ => []
-    end) vs.
-
-Definition occs_of_decl (g : gdecl * nat) : list occ :=
-  let off := snd g in
-  match fst g with
-  | GType td =>
-      match td_name td with
-      | Some i => [{| o_id := shift_ident i off; o_role := RTypeDecl; o_proc := None; o_ty := ty_shape (td_ty td) |}]
-      | None => []
-      end
-      ++ mk_occs off RTypeUse None
-           (match td_ty td with Some (te, toff) => opt_list (ident_in_texpr te toff) | None => [] end)
-  | GProc pd =>
-      let p := option_map id_val (pd_name pd) in
-      mk_occs off RProcDecl p (opt_list (pd_name pd))
-      ++ param_occs off p (pd_params pd)
-      ++ mk_occs off RTypeUse p (types_in_params all (pd_params pd))
-      ++ var_occs off p (pd_vars pd)
-      ++ mk_occs off RTypeUse p (types_in_vars all (pd_vars pd))
-      ++ mk_occs off RCall p (procs_in_stmts all (pd_stmts pd))
-      ++ mk_occs off RVarUse p (vars_in_stmts all (pd_stmts pd))
-  | GError _ => []
-  end.
-
-Definition occurrences (p : program) : list occ := flat_map occs_of_decl (pg_decls p).
-
-Definition o_name (o : occ) : text := id_val (o_id o).
-(* index of the identifier's own token *)
-Definition o_tok (o : occ) : nat := i_e (id_info (o_id o)) - 1.
-
-Definition opt_text_eqb (a b : option text) : bool :=
-  match a, b with
-  | Some x, Some y => text_eqb x y
-  | None, None => true
-  | _, _ => false
-  end.
-
-Definition find_declaring (occs : list occ) (roles : list role) (name : text) (proc : option (option text)) : option occ :=
-  find (fun x => existsb (role_eqb (o_role x)) roles && text_eqb (o_name x) name
-                 && match proc with Some p => opt_text_eqb (o_proc x) p | None => true end) occs.
-
-Definition binding (occs : list occ) (o : occ) : option occ :=
-  match o_role o with
-  | RTypeDecl | RProcDecl | RParamDecl | RVarDecl => Some o
-  | RTypeUse => find_declaring occs [RTypeDecl] (o_name o) None
-  | RVarUse | RCall =>
-      match find_declaring occs [RParamDecl; RVarDecl] (o_name o) (Some (o_proc o)) with
-      | Some x => Some x
-      | None => find_declaring occs [RProcDecl] (o_name o) None
-      end
-  end.
-
-Definition loc_of_occ (d : doc) (o : occ) : option loc :=
-  match nth_error (d_toks d) (o_tok o) with
-  | Some t => Some (pos_range (ts t, te t) (d_text d))
-  | None => None
-  end.
-
-Definition spec_declaration (d : doc) (o : occ) : option loc :=
-  match binding (occurrences (d_ast d)) o with
-  | Some b => loc_of_occ d b
-  | None => None
-  end.
-
-Definition spec_implementation (d : doc) (o : occ) : option loc :=
-  match binding (occurrences (d_ast d)) o with
-  | Some b => match o_role b with RProcDecl => loc_of_occ d b | _ => None end
-  | None => None
-  end.
-
-(* the declaration that created the array type named T: follow `type T = S` to the first
-   declaration whose type expression is an array written in place *)
-Fixpoint creator_decl (occs : list occ) (fuel : nat) (name : text) : option occ :=
-  match fuel with
-  | O => None
-  | S f =>
-      match find_declaring occs [RTypeDecl] name None with
-      | Some t =>
-          match o_ty t with
-          | Some None => Some t
-          | Some (Some s) => creator_decl occs f s
-          | None => None
-          end
-      | None => None
-      end
-  end.
-
-Definition spec_type_definition (d : doc) (o : occ) : option loc :=
-  let occs := occurrences (d_ast d) in
-  match binding occs o with
-  | Some b =>
-      match o_role b with
-      | RTypeDecl => loc_of_occ d b
-      | RParamDecl | RVarDecl =>
-          match o_ty b with
-          | Some (Some t) =>
-              match creator_decl occs (length occs) t with Some c => loc_of_occ d c | None => None end
-          | _ => None
-          end
-      | _ => None
-      end
-  | None => None
-  end.
-
-(* a text the implementation accepts without any diagnostic *)
-Definition clean_doc (t : text) (d : doc) : Prop :=
-  new_doc_res t = ODone d /\ doc_errors_res d = ROk []
-  /\ forallb (fun tok => match terr tok with [] => true | _ => false end) (d_toks d) = true.
-
-(* the position (l, c) lies inside the identifier token of occurrence o *)
-Definition cursor_inside (d : doc) (o : occ) (l c : N) : Prop :=
-  exists tok, nth_error (d_toks d) (o_tok o) = Some tok
-              /\ in_range (ts tok, te tok) (get_insertion_index l c (d_text d)) = true.
-
-Definition full_statement : Prop :=
-  forall t d o l c,
-    clean_doc t d -> In o (occurrences (d_ast d)) -> cursor_inside d o l c ->
-    goto_declaration d l c = ROk (spec_declaration d o)
-    /\ goto_definition d l c = ROk (spec_declaration d o)
-    /\ goto_type_definition d l c = ROk (spec_type_definition d o)
-    /\ goto_implementation d l c = ROk (spec_implementation d o).
-
-(* ---- executable form of one instance, used for the witnesses ---- *)
-Definition loc_eqb (a b : loc) : bool :=
-  (fst (fst a) =? fst (fst b))%N && (snd (fst a) =? snd (fst b))%N
-  && (fst (snd a) =? fst (snd b))%N && (snd (snd a) =? snd (snd b))%N.
-Definition res_loc_eqb (r : res (option loc)) (e : option loc) : bool :=
-  match r, e with
-  | ROk None, None => true
-  | ROk (Some a), Some b => loc_eqb a b
-  | _, _ => false
-  end.
+   The formal reading of C12 (occurrences, binding, spec_*, clean_doc, cursor_inside, full_statement,
+   agrees_at, doc_of, is_clean) is in Spec/Nav.v. *)
 
 Lemma res_loc_eqb_spec r e : r = ROk e -> res_loc_eqb r e = true.
 Proof.
   intros ->. destruct e as [[[a b] [c' d']]|]; simpl; [|reflexivity].
   unfold loc_eqb; simpl. now rewrite !N.eqb_refl.
 Qed.
-
-(* all four handlers agree with the specification at occurrence o, at the first and the last
-   column of its token *)
-Definition agrees_at (d : doc) (o : occ) : bool :=
-  match nth_error (d_toks d) (o_tok o) with
-  | Some tok =>
-      forallb (fun idx =>
-        let p := as_position idx (d_text d) in
-        res_loc_eqb (goto_declaration d (fst p) (snd p)) (spec_declaration d o)
-        && res_loc_eqb (goto_type_definition d (fst p) (snd p)) (spec_type_definition d o)
-        && res_loc_eqb (goto_implementation d (fst p) (snd p)) (spec_implementation d o))
-        [ts tok; (te tok - 1)%N]
-  | None => false
-  end.
-
-Definition doc_of (t : text) : doc :=
-  match new_doc_res t with
-  | ODone d => d
-  | _ => {| d_text := []; d_toks := []; d_ast := {| pg_decls := []; pg_info := mkinfo 0 0 |}; d_table := [] |}
-  end.
-
-Definition is_clean (t : text) : bool :=
-  match new_doc_res t with
-  | ODone d =>
-      match doc_errors_res d with ROk [] => true | _ => false end
-      && forallb (fun tok => match terr tok with [] => true | _ => false end) (d_toks d)
-  | _ => false
-  end.
 
 Lemma is_clean_doc t : is_clean t = true -> clean_doc t (doc_of t).
 Proof.
@@ -752,7 +594,8 @@ Proof.
   destruct (doc_errors_res d) as [[|? ?]|]; try discriminate. auto.
 Qed.
 
-(* ---- the witnesses of the two known findings (replayed on the implementation by the check) ---- *)
+(* ---- the witnesses of the two findings repaired by /repo b909979 (regression corpus of the check:
+   corpus/C12/proc_name_shadowed_by_own_local.json, type_use_shadowed_by_local.json) ---- *)
 From Coq Require Import String.
 Local Open Scope string_scope.
 
@@ -767,8 +610,20 @@ Definition sample_ok : text :=
   (app (str "proc g(ref a: w, i: int) { var k: array [2] of int; a[i] := -k[(i)]; g(a, i); printi(i); }")
   (app [13%N; 10%N] (str "proc main() { var x: w; var i: int; g(x, i); if (i < 1) main(); }")))).
 
+(* every collision of a local with a global name at once: a parameter named like its procedure (of
+   array type, so typeDefinition has a target), a parameter named like a type that a LATER
+   parameter uses (parameter types are resolved globally), variables named `int` and `printi`, a
+   parameter named like another procedure, a type used only behind `of`, a forward call *)
+Definition witness_collisions : text :=
+  app (str "type t = array [2] of int; type u = array [3] of t;")
+  (app [10%N]
+  (app (str "proc f(ref f: t, t: int, ref g: t) { var int: int; var printi: u; f[t] := int; printi[0][1] := g[0]; }")
+  (app [10%N] (str "proc g(x: int) { var a: t; var b: t; f(a, x, b); printi(x); } proc main() { g(1); }")))).
+
 Local Close Scope string_scope.
 
+(* a clean text, an occurrence and a position inside it where declaration differs from the
+   specification refute the full statement *)
 Lemma refutation_instance (t : text) (l c : N) (n : nat) :
   is_clean t = true ->
   (match nth_error (occurrences (d_ast (doc_of t))) n with
@@ -793,8 +648,6 @@ Proof.
   - apply res_loc_eqb_spec in D. rewrite D in H2. discriminate.
 Qed.
 
-Lemma full_statement_refuted : ~ full_statement.
-Proof. apply (refutation_instance witness_own_name 0 5 0); vm_compute; reflexivity. Qed.
-
-Lemma full_statement_refuted_type_name : ~ full_statement.
-Proof. apply (refutation_instance witness_type_name 0 35 4); vm_compute; reflexivity. Qed.
+(* [refutation_instance] is the tool for a counterexample: none is known for the code of /repo b909979.
+   On the two former counterexamples the statement now holds at every occurrence (first and last
+   column): Props/C12.v, C12_repaired_witnesses_agree. *)
